@@ -249,6 +249,69 @@ def vc_graph_derived(H):
     H.run_paths(fc, '', body3)
 
 
+def vc_graph_refresh(H):
+    """C20 "dependent callables are re-evaluated": every computation of the payload evaluates the subjects afresh.
+      get_subjects()              == walker(encode(<a new call of self._get_pre_subjects()>, root=True))
+      _observe_draggable_points   writes the reported values into self.pre_subjects at draggable_points_idxs (inplacereplace),
+                                  then sets self.subjects from a get_subjects() made after the write-back
+      _handle_custom_msg(update_mvs) sets self.subjects from a new get_subjects()."""
+    fg = H.fn(GR, 'GraphWidget.get_subjects')
+
+    def body(ctx):
+        calls = []
+        fresh = sym('fresh-pre-subjects')
+        stored = sym('stored-pre-subjects')
+        me = sym('self', attrs={'_get_pre_subjects': sym('_get_pre_subjects', callable_result=lambda i, m, a, k: calls.append(('eval', a, k)) or fresh),
+                                'pre_subjects': stored, 'raw_subjects': sym('raw'),
+                                'draggable_points_idxs': sym('idxs', truth=SBool(z3.Bool('has_draggable_points')))})
+        enc = sym('encode', callable_result=lambda i, m, a, k: Rec('call', m, tuple(a), dict(k)))
+        wal = sym('walker', callable_result=lambda i, m, a, k: Rec('call', m, tuple(a), dict(k)))
+        r = H.closure(Interp(ctx, source_name=GR), fg, {'encode': enc, 'walker': wal})(me)
+        ok = (isinstance(r, Rec) and r.kind == 'call' and r.parts[0] is wal and len(r.parts[1]) == 1 and isinstance(r.parts[1][0], Rec)
+              and r.parts[1][0].kind == 'call' and r.parts[1][0].parts[0] is enc)
+        ctx.oblige('get_subjects returns walker(encode(.., root=True))', bool(ok), meta={'got': repr(r)[:200]})
+        if ok:
+            e = r.parts[1][0]
+            ctx.oblige('get_subjects encodes the result of a new evaluation of the subjects (self._get_pre_subjects() called now), as the root',
+                       len(e.parts[1]) == 1 and e.parts[1][0] is fresh and len(calls) == 1 and e.parts[2].get('root') is True,
+                       meta={'encoded': repr(e.parts[1])[:200], 'evaluations': len(calls)})
+        return r
+    H.run_paths(fg, '', body)
+    fo = H.fn(GR, 'GraphWidget._observe_draggable_points')
+
+    def body2(ctx):
+        log = []
+        payload = sym('new-payload', attrs={'copy': sym('copy', callable_result=lambda i, m, a, k: sym('payload-copy'))})
+        pre = sym('pre_subjects')
+        idxs = ['i0', 'i1']
+        newv = ['n0', 'n1']
+        me = sym('self', attrs={'pre_subjects': pre, 'draggable_points_idxs': idxs,
+                                'inplacereplace': sym('inplacereplace', callable_result=lambda i, m, a, k: log.append(('replace', a, k)) or None),
+                                'get_subjects': sym('get_subjects', callable_result=lambda i, m, a, k: log.append(('get_subjects',)) or payload)})
+        H.closure(Interp(ctx, source_name=GR), fo, {'zip': zip})(me, {'new': newv, 'old': ['o0', 'o1']})
+        rep = [x for x in log if x[0] == 'replace']
+        ok = len(rep) == 1 and len(rep[0][1]) == 2 and rep[0][1][0] is pre
+        pairs = list(rep[0][1][1]) if ok else None
+        ctx.oblige('drag: the reported points are written into self.pre_subjects, paired with draggable_points_idxs in order',
+                   bool(ok) and pairs == list(zip(idxs, newv)), meta={'got': repr(pairs)[:200]})
+        order = [x[0] for x in log]
+        ctx.oblige('drag: the payload is recomputed (get_subjects) after the write-back', order == ['replace', 'get_subjects'], meta={'order': order})
+        sets = [e for e in ctx.events if e[0] == 'setattr' and e[2] == 'subjects']
+        ctx.oblige('drag: self.subjects is set from that recomputed payload', len(sets) == 1 and isinstance(sets[0][3], Rec) and (sets[0][3] is payload or sets[0][3].parts[0] == 'payload-copy'),
+                   meta={'got': repr(sets)[:200]})
+    H.run_paths(fo, '', body2)
+    fh = H.fn(GR, 'GraphWidget._handle_custom_msg')
+
+    def body3(ctx):
+        log = []
+        payload = sym('new-payload')
+        me = sym('self', attrs={'get_subjects': sym('get_subjects', callable_result=lambda i, m, a, k: log.append('get_subjects') or payload)})
+        H.closure(Interp(ctx, source_name=GR), fh)(me, {'type': 'update_mvs'}, [])
+        sets = [e for e in ctx.events if e[0] == 'setattr' and e[2] == 'subjects']
+        ctx.oblige('update_mvs: self.subjects is set from a new get_subjects()', log == ['get_subjects'] and len(sets) == 1 and sets[0][3] is payload)
+    H.run_paths(fh, 'update_mvs', body3)
+
+
 def vc_inplacereplace(H):
     """When the front end reports moved points, exactly the corresponding coefficients of the original multivectors are
     overwritten in place: a sparse (or non-canonically ordered) subject reads new_vals[key2idx[key]] for each of its own keys; a
